@@ -703,7 +703,29 @@ class _InUnitsEquivalence(_ToEquivalent):
         return dict({"equivalence": formals["equivalence"]}, **{p: formals[p] for p in self._params})
 
 
+class _ToSpelling(_InUnitsEquivalence):
+    """x.to(<unit string>, equivalence=<name>, **params)"""
+    name = "unyt.array.unyt_array.to"
+
+
+class _ConvertToUnitsSpelling(_ConvertToEquivalent):
+    """x.convert_to_units(<unit string>, equivalence=<name>, **params)"""
+    name = "unyt.array.unyt_array.convert_to_units"
+
+    def configure(self, repo, dom):
+        _ConvertToEquivalent.configure(self, repo, dom)
+        dom.inline.add("unyt.array.unyt_array.convert_to_equivalent")
+
+    def call_args(self, formals):
+        return [formals["self"], formals["unit"]]
+
+    def call_kwargs(self, formals):
+        return dict({"equivalence": formals["equivalence"]}, **{p: formals[p] for p in self._params})
+
+
 SPELLINGS = []
 for _e in ("thermal", "mass_energy", "spectral", "number_density", "schwarzschild", "compton", "sound_speed"):
     SPELLINGS.append(_mk(_InUnitsEquivalence, "InUnitsEquivalence_" + _e, equiv=_e))
+    SPELLINGS.append(_mk(_ToSpelling, "ToEquivalence_" + _e, equiv=_e))
+    SPELLINGS.append(_mk(_ConvertToUnitsSpelling, "ConvertToUnitsEquivalence_" + _e, equiv=_e))
 ALL = ALL + SPELLINGS
